@@ -42,6 +42,10 @@ def trueDiv (a b : Int) : Rat := (a : Rat) / (b : Rat)
 /-- `int(x)`: truncation toward zero -/
 def intOfRat (x : Rat) : Int := if 0 ≤ x then x.floor else x.ceil
 
+/-- Python `max(a, b)` / `min(a, b)` of two numbers: the first argument wins ties -/
+def max2 {α} [LT α] [DecidableLT α] (a b : α) : α := if a < b then b else a
+def min2 {α} [LT α] [DecidableLT α] (a b : α) : α := if b < a then b else a
+
 /-- `len(l)` -/
 def len {α} (l : List α) : Int := (l.length : Int)
 
